@@ -9,6 +9,7 @@ tdiv_qr_spec tdiv_q_spec tdiv_r_spec fdiv_qr_spec cdiv_qr_spec fdiv_q_spec cdiv_
 q_ui_return_abs_r r_ui_return_abs_r qr_ui_return_abs_r ui_return_abs_r spec_dirs div_by_zero_raises
 cfdiv_q_2exp_spec cfdiv_r_2exp_spec tdiv_q_2exp_spec tdiv_r_2exp_spec
 divexact_spec divexact_ui_spec divisible_p_iff divisible_p_zero divisible_ui_p_iff divisible_2exp_p_iff
+congruent_p_iff congruent_p_zero congruent_ui_p_iff
 """.split()]
 TRUSTED = ["hand-written models lean/Mpir/Model/DivZ.lean of the mpz division wrappers (tied by correspondence on every run)",
            "callee specifications used inside the wrapper models: mpn_tdiv_qr/mpn_tdiv_q/mpn_divrem_1/mpn_mod_1 = Nat div/mod, "
